@@ -21,10 +21,14 @@ fn row(p: &str, names: &[String]) -> (Value, u64, u64) {
                 })
                 .collect();
             o.insert("m".into(), json!(m));
+            // the same question by another route: best_match of a name with itself
+            let bm: Vec<Value> = names.iter().map(|n| { evals += 1; tf(pat.best_match(n, n) == Some(n.as_str())) }).collect();
+            o.insert("bm".into(), json!(bm));
         }
         Err(_) => {
             o.insert("ok".into(), json!("F"));
             o.insert("m".into(), json!(names.iter().map(|_| "F").collect::<Vec<_>>()));
+            o.insert("bm".into(), json!(names.iter().map(|_| "F").collect::<Vec<_>>()));
         }
     }
     // the standalone Dewey matcher, for brace-free patterns only
@@ -53,6 +57,7 @@ pub fn patrow(st: &State, input: &Value) -> Out {
         let xs: Vec<String> = xs.iter().map(to_string).collect();
         let (v2, e2, n2) = row(&p, &xs);
         v["xm"] = v2["m"].clone();
+        v["xbm"] = v2["bm"].clone();
         e += e2;
         n += n2;
     }
